@@ -46,7 +46,7 @@ fn vf_get_all_commands() {
             if !ok {
                 bad += 1;
                 if bad <= 3 {
-                    println!("VF-FAIL sequences={:?} commands={:?} :: get_all_commands returned {:?}, documented order is {:?} (C04)", seqs, cmds, got.as_ref().map(|v| v.iter().map(|s| s.as_str()).collect::<Vec<_>>()).map_err(|e| e.to_string()), if undefined { None } else { Some(&want) });
+                    println!("VF-FAIL sequences={:?} commands={:?} :: get_all_commands returned {:?}, documented order is {:?} - the commands of each sequence in the order given, then every explicit command (C04) (C05)", seqs, cmds, got.as_ref().map(|v| v.iter().map(|s| s.as_str()).collect::<Vec<_>>()).map_err(|e| e.to_string()), if undefined { None } else { Some(&want) });
                 }
             }
         }
